@@ -40,6 +40,10 @@ HELPERS = {
     'X@1': [['EQ', 1], ['TADD', 'X', 1]],
     'X@2': [['EQ', 2], ['TADD', 'X', 1]],
     'X@1-@1': [['EQ', 1], ['TADD', 'X', 1], ['TADD', 'X', -1]],
+    'X@1X@2': [['EQ', 1], ['TADD', 'X', 1], ['EQ', 2], ['TADD', 'X', 1]],
+    'X@0X@1': [['TADD', 'X', 1], ['EQ', 1], ['TADD', 'X', 1]],
+    'Y@1+': [['EQ', 1], ['TADD', 'Y', 1]],
+    'B@1': [['EQ', 1], ['SET', 'B', True]],
     'Y@1': [['EQ', 1], ['TADD', 'Y', -1]],
     'Y@2': [['EQ', 2], ['TADD', 'Y', -1]],
     'Y@1-@1': [['EQ', 1], ['TADD', 'Y', -1], ['TADD', 'Y', 1]],
@@ -56,10 +60,13 @@ NOTIFS = {
     'tracked': (['T', 'X', '>=', 1], ['none', 'X@1', 'X@2', 'X@1-@1']),
     # (a comparison of two tracked values fires when either side changes)
     'tracked2': (['TT', 'X', '>=', 'Y'], ['none', 'X@1', 'X@2', 'Y@1', 'Y@2', 'Y@1-@1']),
+    # changes of the tracked value(s) that do not make the comparison true (yet)
+    'tracked-far': (['T', 'X', '>=', 2], ['none', 'X@1', 'X@2', 'X@1X@2', 'X@0X@1', 'X@1-@1']),
+    'tracked2-far': (['TT', 'X', '>', 'Y'], ['none', 'X@1', 'Y@1', 'Y@1+', 'X@1X@2']),
     'done1': (['DONE', 't1'], ['none']),
     'done2': (['DONE', 't2'], ['none']),
     'or': (['OR', ['F', 'A'], ['F', 'B']], ['none', 'A@0', 'A@1', 'AB@1', 'A@1B@2']),
-    'and': (['AND', ['F', 'A'], ['F', 'B']], ['none', 'A@0', 'AB@1', 'A@1B@2']),
+    'and': (['AND', ['F', 'A'], ['F', 'B']], ['none', 'A@0', 'AB@1', 'A@1B@2', 'A@1', 'B@1', 'A@1-@1']),
     'or-t': (['OR', ['F', 'A'], ['GE', 2]], ['none', 'A@1']),
     'and-t': (['AND', ['F', 'A'], ['GE', 1]], ['A@0', 'A@2']),
 }
@@ -186,7 +193,8 @@ def state_resolver(ctx, program):
                     op = find_op(program, r[1], r[2])
                     if op:
                         v[op[1]] += op[2]
-            return v[e[1]] >= (e[3] if k == 'T' else v[e[3]])
+            from ..dsl import CMP
+            return CMP[e[2]](v[e[1]], (e[3] if k == 'T' else v[e[3]]))
         if k == 'DONE':
             return any(r[0] in ('finish', 'abort') and r[1] == e[1] for r in log[:idx])
         if k == 'GE':
